@@ -96,4 +96,9 @@ META = {
         text="Exploration: generated fault points (which boundary, which token / message position, how the callee fails, at which gas limit, who is refunded) against the designated outcome of the failure: attestation bookkeeping only, refund record only, failed proposal only.",
         note="The IBC boundary is exercised by the C19 check.",
     ),
+    "C19": dict(
+        technique="model-based stateful property-based testing (rapid) of the IBC transfer stack (middleware over the transfer module) with real channel state on the sending side and an emulation of the IBC core's delivery rules, comparing tracked holdings, supplies, escrow and tracking records with a reference model after every step",
+        text="Exploration: generated interleavings of inbound packets (denominations, receivers, amounts, memos), outbound transfers from Cosmos and from the EVM, acknowledgements, timeouts and replays on two channels; credit or refund exactly once, memo-call sender derivation, no effects behind an error acknowledgement.",
+        note="Proof verification is outside the harness; ERC-20-started outbound transfers are refused on this snapshot (evidence counts them).",
+    ),
 }
